@@ -239,7 +239,7 @@ Proof.
       + apply pres_bind; [apply ot_remove_module|]. intros _. apply pres_ret. }
   intros refused. destruct refused; [apply pres_ret|].
   apply pres_bind; [pv|]. intros _. apply pres_getk. intros s2.
-  apply pres_bind; [destruct (m_logger _); [pv|apply pres_ret]|]. intros _. apply pres_ret.
+  apply pres_bind; [destruct (m_logger _ && m_reg _); [pv|apply pres_ret]|]. intros _. apply pres_ret.
 Qed.
 
 Lemma ot_add_subscription c t : pres I (add_subscription cfg FUEL c t).
